@@ -240,6 +240,13 @@ class Tree:
                             env.log("factory+", label, n)
                             await env.gate(f"fac:{label}:{n}")
                             return make()
+                    elif fkind == "agated":
+                        async def fcb(make=make, label=label) -> Any:
+                            # every call takes time (a gate): the caller is suspended inside the factory meanwhile
+                            n = self.fac_calls.get(label, 0) + 1
+                            env.log("factory+", label, n)
+                            await env.gate(f"fac:{label}:{n}")
+                            return make()
                     elif fkind == "union":
                         from typing import Union
 
@@ -283,6 +290,17 @@ class Tree:
                             continue
                         raise
                     env.log("get-", tag, lab(r), env.env_events - ev0)
+                elif k == "subget":
+                    # a lookup made in a context that the component opens for itself during start-up
+                    _, tname, name, tag = st[:4]
+                    env.log("get+", tag, tname, name, "subctx", False)
+                    async with ac.Context():
+                        try:
+                            r = ac.get_resource_nowait(RT[tname], name)
+                            env.log("get-", tag, lab(r), 0)
+                        except ac.ResourceNotFound:
+                            env.log("get!", tag, "ResourceNotFound", 0)
+                            raise
                 elif k == "getc":
                     # a request the component gives up on: the wait runs inside a cancel scope that the environment may cancel
                     _, tname, name, tag = st[:4]
@@ -328,6 +346,32 @@ class Tree:
                     await self._start_service(path, phase, st)
                 elif k == "svc-hs":
                     await self._start_handshake_service(path, phase, st)
+                elif k == "svc-none":
+                    # a service task with teardown_action=None that ends by itself once a LATER-registered teardown callback tells it to
+                    label = st[1]
+                    stop = anyio.Event()
+
+                    async def service_none(label: str = label, stop: Any = stop) -> None:
+                        env.log("svc+", label)
+                        try:
+                            await stop.wait()
+                            env.log("svc-flushing", label)
+                            await env.gate(f"svc:{label}:flush")
+                        except BaseException as e:
+                            env.log("svc!", label, type(e).__name__)
+                            raise
+                        finally:
+                            env.log("svc-", label)
+
+                    await ac.start_service_task(service_none, label.replace(":", "_").replace(".", "_"), teardown_action=None)
+                    env.log("svc-started", label)
+
+                    def tell_stop(label: str = label, stop: Any = stop) -> None:
+                        env.log("td", "stop:" + label)
+                        stop.set()
+
+                    ac.add_teardown_callback(tell_stop)
+                    env.log("td-reg", "stop:" + label)
                 elif k == "bad-factory":
                     # a resource factory that raises a LookupError subclass, then a lookup through it
                     def boom() -> Any:
